@@ -487,7 +487,7 @@ package websocket
 // C01 step lemma for a new subscription: from now on the subscriber's view must hold the components of
 // this type, but nothing is handed to it here and none of their adds were relayed to it while it was
 // not subscribed - the lemma holds only if there are none. It does NOT hold for the code as it is
-// (finding D12, listed in /verif/known_findings.txt): the clause is kept so that the gap stays visible.
+// (finding D13, listed in /verif/known_findings.txt): the clause is kept so that the gap stays visible.
 //@     ensures {C01} !old(subscribed(C, T, P.ID)) ==> forall e: uint32 :: !hasComp(C, T, e)
 //@     emits {C13,C04,C01} [send(respond, hagallpb.EntityComponentTypeSubscribeResponse{Type: hagallpb.MsgType_MSG_TYPE_ENTITY_COMPONENT_TYPE_SUBSCRIBE_RESPONSE, RequestId: req.RequestId})]
 //@   complete behaviours
